@@ -17,10 +17,15 @@ V = os.path.dirname(os.path.dirname(os.path.abspath(__file__)))
 SEEDED = os.path.join(V, "seeded")
 
 
+PROPS_OVERRIDE = None
+
+
 def run_one(name, tier):
     d = os.path.join(SEEDED, name)
     meta = json.load(open(os.path.join(d, "meta.json")))
     props = meta["property"] if isinstance(meta["property"], list) else [meta["property"]]
+    if PROPS_OVERRIDE:
+        props = PROPS_OVERRIDE
     wt = tempfile.mkdtemp(prefix="seeded_%s_" % name, dir="/tmp")
     os.rmdir(wt)
     res = {"name": name, "properties": props, "checks": {}}
@@ -70,6 +75,11 @@ def main():
     if "--out" in args:  # separate result file (merge later with --merge) so that two runs can go on side by side
         i = args.index("--out")
         rp = args[i + 1]
+        del args[i:i + 2]
+    if "--props" in args:  # run these checks instead of the ones named in meta.json (triage)
+        global PROPS_OVERRIDE
+        i = args.index("--props")
+        PROPS_OVERRIDE = args[i + 1].split(",")
         del args[i:i + 2]
     if "--merge" in args:
         i = args.index("--merge")
